@@ -587,6 +587,10 @@ class SR:
             return NotImplemented
         a, b = self, o
         # sqrt monotonicity: compare squares when both sides are syntactically non-negative
+        if a.root is not None and b.is_const() and b.cval() == 0 and op in ("ge", "lt"):
+            return op == "ge"            # a square root is never negative
+        if b.root is not None and a.is_const() and a.cval() == 0 and op in ("le", "gt"):
+            return op == "le"
         if (a.root is not None or b.root is not None) and op in ("lt", "le", "gt", "ge"):
             sa = a.root if a.root is not None else None
             sb_ = b.root if b.root is not None else None
